@@ -181,6 +181,20 @@ CHECKS = {
                   "Composition of transforms is C13's model. No axioms.",
         technique="Rocq proof for all affine maps + tolerant correspondence (vm_compute) + end-to-end oracle",
         ref="§C04"),
+    "C20": dict(
+        text="C20_called_once: every linear move (move, move_absolute, each interpolated segment -- all go through "
+             "do_move) calls each registered hook exactly once, in registration order, with the resolved position before "
+             "the move and the absolute target of the move; rapids call none. C20_true_target: with no transform that "
+             "target is the tracked position after the move in either distance mode. C20_params_remembered. "
+             "C20_extrusion / C20_length: the bundled hook commands (nozzle*layer/cross-section) x XY length (square root "
+             "correct to 2^-60), per move in relative extrusion mode, added to the remembered E in absolute mode. "
+             "Correspondence: hook arguments compared exactly, E words within one unit of dp; oracle recomputes call "
+             "counts/order/arguments and E amounts from the output.",
+        note=TB + "Quantifier has no transforms (under a transform the hook receives the transformed move vector as "
+                  "target: read in the code, outside the statement). math.hypot/pi as floats are modelled (exact Q with "
+                  "a 2^-60 square root; pi enters through the float cross-section). No axioms.",
+        technique="Rocq proofs about do_move/run_hooks + correspondence (vm_compute) + oracle",
+        ref="§C20"),
 }
 
 PENDING_REASON = "check not built yet in this session (work in progress; see DESIGN.md §10 for the order)"
